@@ -5,7 +5,10 @@ import gen
 
 CMDS = ([{"op": "scrub", "plan": p} for p in ("full", "new", "bad", "50", "100", "0")] + [{"op": "scrub"}] +
         [{"op": "fix", "mode": m} for m in ("all", "parity", "missing", "errors", "filter")] +
-        [{"op": "check"}, {"op": "check", "a": True}, {"op": "rehash"}, {"op": "touch"}, {"op": "status"}, {"op": "diff"}, {"op": "rewrite_content"}])
+        [{"op": "check"}, {"op": "check", "a": True}, {"op": "rehash"}, {"op": "touch"}, {"op": "status"}, {"op": "diff"}, {"op": "rewrite_content"}] +
+        # configuration changes: a data disk is taken out of the configuration (its stripe column becomes a hole once the next
+        # sync has dropped its blocks) and possibly configured again later
+        [{"op": "drop_disk"}, {"op": "readd_disk"}])
 
 COMMAND_OPS = ("sync", "scrub", "fix", "check", "rehash", "touch", "status", "diff", "rewrite_content", "list", "dup", "pool")
 
@@ -17,7 +20,10 @@ def decode_step(sel, t, bs, nd, odd=True, links=True):
     if sel <= 6:
         return gen.decode_sync(t)
     if sel == 7:
-        return dict(CMDS[t[1] % len(CMDS)])
+        c = dict(CMDS[t[1] % len(CMDS)])
+        if c["op"] == "drop_disk":
+            c["disk"] = t[2] % nd
+        return c
     return {"op": "lose_files", "disk": t[1] % nd, "n": 1 + t[2] % 3, "fi": t[3]}
 
 
@@ -139,6 +145,50 @@ def run_history(w, steps, after_command=None):
                 f = after_command(i, s, r)
                 if f:
                     return f, stats
+        elif op == "drop_disk":
+            # the documented way to take a data disk out of an array: empty it, sync with --force-empty, then delete its line
+            # from the configuration (deleting the line while the content file still knows the disk is refused by the tool)
+            cfg = w.arr.cfg
+            k = s.get("disk", 0) % cfg["ndisks"]
+            dn = "d%d" % (k + 1)
+            if not cfg.get("removed") and cfg["ndisks"] >= 2 and dn not in (cfg.get("content") or []) and not cfg.get("fake_uuid"):
+                for rel in list(w.list_files(dn)):
+                    w.fs_step({"op": "delete", "disk": k, "fi": 0})
+                top = w.arr.disk_dirb(dn)
+                for n in os.listdir(top):
+                    full = os.path.join(top, n)
+                    if os.path.islink(full) or not os.path.isdir(full):
+                        os.unlink(full)
+                    else:
+                        import shutil
+                        shutil.rmtree(full)
+                r = w.cmd("sync", ["-E", "-Z"])
+                stats["commands"] += 1
+                if r.timed_out:
+                    stats["timeout"] = True
+                    return None, stats
+                try:
+                    c = w.content_model()
+                except Exception:
+                    c = None
+                d = c.disks.get(dn.encode()) if c else None
+                if r.rc == 0 and c is not None and (d is None or (not d.files and not d.links and not d.dirs and not d.deleted)):
+                    cfg["removed"] = [dn]
+                    w.arr.write_conf()
+                    w.events.append(("drop_disk", dn))
+                    stats["classes"].add("disk emptied, synced and dropped from the configuration")
+                if after_command:
+                    f = after_command(i, {"op": "sync"}, r)
+                    if f:
+                        return f, stats
+        elif op == "readd_disk":
+            cfg = w.arr.cfg
+            if cfg.get("removed"):
+                w.events.append(("readd_disk", cfg["removed"][0]))
+                cfg["removed"] = []
+                w.arr.write_conf()
+                stats["classes"].add("dropped disk configured again")
+                pending = True
         elif op == "lose_files":
             lose_files(w, s)
             stats["classes"].add("files lost")
